@@ -94,7 +94,9 @@ def run(chk):
                     "forward summaries are the ones verified by C01 (closure) and C02 (system rows, Thomas caches)"]
 
 
-def check_class(chk, F, M, short):
+def check_class(chk, F, M, short, zero_rows=()):
+    """zero_rows: rows c_k of the upstream coefficient gradient assumed identically zero (used by C06-R7: the energy
+    partials never populate rows k < s); residuals are compared modulo those rows."""
     cls = M.cls
     s, K = M.s, M.K
     n = sp.Symbol(M.m_count, integer=True, positive=True)
@@ -136,6 +138,21 @@ def check_class(chk, F, M, short):
         where = loc(f, {"line": Lseg.line})
         which = {"first_val": Lseg.lo, "last_val": Lseg.hi - 1}
         g = [Vec.atom((gC, sp.expand(K * iv + k))) for k in range(K)]
+
+        def dead(a):
+            if not (zero_rows and a[0] == gC):
+                return False
+            e_ = sp.sympify(a[1])
+            return int(e_.subs({x: 0 for x in e_.free_symbols})) % K in zero_rows
+
+        def drop_v(v):
+            return Vec({a: c for a, c in v.t.items() if not dead(a)}) if zero_rows else v
+
+        def drop_s(e_):
+            if not zero_rows:
+                return e_
+            e_ = sp.sympify(e_)
+            return e_.xreplace({d: Integer(0) for d, (a, b) in sym.dots_in(e_).items() if dead(a) or dead(b)})
         eff = group([e for e in Lseg.effects if e.target != gtimes])
         # internal gradient storage: the non-output rows container written here
         store = {k[0] for k in eff if k[0] not in (inner, startg + ".p", endg + ".p")}
@@ -163,7 +180,7 @@ def check_class(chk, F, M, short):
             seen_slots.add(slot)
             got = total_delta(eff.get(slot, [])) if slot in eff else Vec()
             got = Vec({a: ex_s(c) for a, c in got.t.items()})
-            d_ = got.add(want, -1)
+            d_ = drop_v(got.add(want, -1))
             chk.ob("C05-R1", "%s [%s segment] pull-back onto %s" % (cls, kind, sym.atom_str(Ai)), vec_zero(d_), where,
                    "code - (dF/d%s)^T g = %r" % (sym.atom_str(Ai), d_.clean()), construct="%s/pullback/%s/%s" % (cls, kind, sym.atom_str(A)))
         extra = [k for k in eff if k not in seen_slots]
@@ -179,7 +196,7 @@ def check_class(chk, F, M, short):
             rk = Vec({(a[0],) + tuple(sp.expand(x.subs(ci, iv)) for x in a[1:]): ex_s(sp.sympify(c).subs(ci, iv)) for a, c in rows_n[k].t.items()})
             dk = Vec({a: sp.diff(c, h) for a, c in rk.t.items()})
             want += sym.vdot(g[k], dk)
-        d_ = sp.expand(sp.simplify(got - sp.expand(want)))
+        d_ = sp.expand(drop_s(sp.expand(sp.simplify(got - sp.expand(want)))))
         chk.ob("C05-R2", "%s [%s segment] explicit duration term = sum_k <g_k | dF_k/dh_i>" % (cls, kind), d_ == 0 and ok_key, where,
                "code - reference = %s" % sp.sstr(d_)[:300], construct="%s/dFdh/%s" % (cls, kind))
         # ---- R4 / R5 / R3 per class type ---------------------------------------------------------
